@@ -127,7 +127,7 @@ fn nontrivial(p: &Program) -> bool {
 }
 
 pub fn run(ctx: &Ctx) {
-    ctx.set_rule("generated builder programs over all 22 kinds and every entry type (every scalar from the biased generator: 0, max, single bits, byte fills, distinct-byte patterns, random; every enum variant; optional parts present/absent; pub fields of FADTBuilder/FACS/ProcessorNode set directly) compared byte for byte with an independently written specification-layout encoder (refenc.rs, Appendix A of DESIGN.md), on every prefix of short histories; plus the directed histories of C01. Non-trivial = program with at least one op and at least one multi-byte value whose bytes are pairwise distinct or a single bit; distinct by hash.");
+    ctx.set_rule("generated builder programs over all 22 kinds and every entry type (every scalar from the biased generator: 0, max, single bits, byte fills, distinct-byte patterns, random; every enum variant; optional parts present/absent; pub fields of FADTBuilder/FACS/ProcessorNode set directly) compared byte for byte with an independently written specification-layout encoder (refenc.rs, Appendix A of DESIGN.md), on every prefix of short histories; plus the directed histories of C01. Non-trivial = program with at least one op and at least one multi-byte value whose bytes are pairwise distinct or a single bit; distinct by hash. Also: GenericAddress helpers for every access width; the UEFI generic error status block (block-status bits for counts 0/1/>1, severity codes) and data entry (field order and widths after the section type); a refused SLIT assignment outside the matrix must leave the image equal to the reference of the accepted calls.");
     ctx.assume("pinned to the crate's documented choice, not a specification: header Revision bytes, creator id RVAT / 00 00 00 01, VIOT endpoint start = first BDF, CHBS length from CXL version, TCPA server spec revision 01 02, acpi_enable() => 1/0, absent GHES notification = zeroed structure");
     ctx.assume("CXL RDPAS: the published record length (16) and field list (17 bytes) disagree; the reference uses both as published (C02/C03 report the inconsistency)");
     ctx.assume("the reference layouts are transcribed from the specifications as recalled offline (no network); every constant is commented with its source in refenc.rs");
